@@ -64,6 +64,20 @@ def showResH (h : Heap) : ResH → String
     | some v => s!"{showKind o.kind} {showVal v}"
     | none => "BAD"
 
+/-- an operand of the `+`/`-` expression: `plain0` / `plain1` (a Python number, zero or not) or `kind;scale;value` -/
+def parseOperand? (s : String) : Option Operand :=
+  if s = "plain0" then some (.plain true) else if s = "plain1" then some (.plain false) else
+  match s.splitOn ";" with
+  | [k, sc, v] => do let k ← parseKind? k; let sc ← parseScale? sc; let v ← parseVal? v; pure (.obj k sc v)
+  | _ => none
+
+def showScale : Scale → String
+  | .utc => "utc" | .tai => "tai" | .gps => "gps" | .tt => "tt" | .tcg => "tcg"
+
+def showResP : ResP → String
+  | .typeError => "TYPE" | .attributeError => "ATTR" | .shapeError => "SHAPE"
+  | .ok k s v => s!"{showKind k} {showScale s} {showVal v}"
+
 def handle : List String → Option String
   | ["c03", "tojds", f, v, v2] => do
     let f ← parseFmt? f; let v ← parseRat? v; let v2 ← parseRat? v2
@@ -122,6 +136,15 @@ def handle : List String → Option String
       | .ok o => (match o.p1 with | .ref a => decide (a < h2.length) | _ => false) || (match o.p2 with | .ref a => decide (a < h2.length) | _ => false)
       | _ => false
     pure s!"{showResH h3 r} | {showHeap (h3.take h2.length)} | {h3.length - h2.length} | {if shared then "shared" else "fresh"}"
+  | ["c03", "py", op, a, b] => do
+    -- the whole `a + b` / `a - b` expression with Python's dispatch; the reflected methods as the regenerated table has them
+    let op ← parseOp? op; let a ← parseOperand? a; let b ← parseOperand? b
+    pure (showResP (pyBinop srcReflRefuses op a b))
+  | "c03" :: "pysum" :: ds => do
+    let ds ← ds.mapM parseOperand?
+    match pySum srcReflRefuses ds with
+    | none => pure "ZERO"
+    | some r => pure (showResP r)
   | _ => none
 
 end Driver.C03
